@@ -99,7 +99,7 @@ Verdict_a(ev) ==
                      /\ (ev.op = "quoint" => got.e = 0)
                      /\ (ev.op \in {"tointx", "tointv"} => (got.e = 0 \/ (got.e > 0 /\ ev.x.e > 0)))
                      /\ (ev.op = "reduce" => (IF IsZero(got.c) THEN got.e = 0 ELSE LastDigit(got.c) # 0))>>,
-       <<"root",  (ev.op \in {"sqrt", "cbrt"} /\ w.k = "skip" /\ ev.err = "" /\ ev.ctx.p > 0) =>
+       <<"root",  (ev.op \in {"sqrt", "cbrt"} /\ w.k = "skip" /\ ev.x.f = FIN /\ ev.err = "" /\ ev.ctx.p > 0) =>
                      \/ (got.f = INF /\ Bit(ev.fl, F_OVF) /\ got.n = ev.x.n)                                    \* overflow: not claimed
                      \/ /\ got.f = FIN /\ got.n = ev.x.n
                         /\ (\/ (ev.op = "sqrt" /\ Bit(ev.fl, F_SUBN) /\ ~Bit(ev.fl, F_OVF)             \* sub-normal square roots: rounded once to Etiny
@@ -110,7 +110,8 @@ Verdict_a(ev) ==
                             ELSE CbrtOK(ev.x.c, ev.x.e, got.c, got.e, ev.ctx.p, Bit(ev.fl, F_INEXACT)))>>,
        <<"transc", (ev.op \in {"exp", "ln", "log10", "pow"} /\ w.k = "skip" /\ ev.err = "" /\ ev.ctx.p > 0) => TranscOK(ev)>>,
        <<"flags", FlagsOK(ev.op, w, got, ev.fl)>>,
-       <<"flagimp", FlagImpOK(got, ev.fl)>>,
+       <<"flagimp", IF ev.op \in {"exp", "ln", "log10", "pow"}      \* these set Inexact unconditionally (source TODO: "exact under some conditions"), also on an unrounded exact result
+                   THEN FlagImpRangeOK(ev.fl) ELSE FlagImpOK(got, ev.fl)>>,
        <<"rnd",   (w.k = "fin" /\ ev.op \in {"quantize", "tointx"} /\ ~IsZero(ev.x.c)) =>
                      (Bit(ev.fl, F_ROUNDED) = (ev.x.e < (IF ev.op = "quantize" THEN ev.q ELSE 0)))>>,
        <<"nbits", ev.fl \in 0..4095>>,
